@@ -25,6 +25,46 @@ TIERS = {
     "thorough": {"walks": 600, "steps": 220},
 }
 
+# ---- design pass: bounded configurations of Cluster.tla (module, SPECIFICATION, constants) ----
+def mc(module, spec, nodes="MC_NodeSeq", fits="MC_InitFits", strat="MC_Strat", env=0, edit=1, ann=1, agecap=1, per_node=3, tmpls="MC_TmplSeq"):
+    return dict(module=module, spec=spec, nodes=nodes, fits=fits, strat=strat, env=env, edit=edit, ann=ann, agecap=agecap, per_node=per_node, tmpls=tmpls)
+
+MC_CONFIGS = {
+    # name: (config, expected wall time quick machine)
+    "rollout_q": mc("MC_rollout", "Spec", env=0, edit=1, ann=1),
+    "rollout_t": mc("MC_rollout", "Spec", env=1, edit=1, ann=1),
+    "rollout_mu2_t": mc("MC_rollout", "Spec", strat="MC_Strat2", env=1, edit=1, ann=0),
+    "rollout_pct_q": mc("MC_rollout", "Spec", strat="MC_StratPct", env=0, edit=1, ann=0),
+    "canary_q": mc("MC_canary", "SpecCanary", env=0, edit=1, ann=1, agecap=2),
+    "canary_t": mc("MC_canary", "SpecCanary", env=1, edit=1, ann=1, agecap=2),
+    "canary_manual_q": mc("MC_canary", "SpecCanary", strat="MC_StratManual", env=0, edit=1, ann=1, agecap=1),
+}
+
+# property -> {tier: [(config name, [M_ properties], [invariants])]}
+MC = {
+    "C01": {"quick": [("rollout_q", ["M_C01"], ["TypeOK"])], "thorough": [("rollout_t", ["M_C01"], ["TypeOK"]), ("canary_t", ["M_C01"], [])]},
+    "C03": {"quick": [("rollout_q", ["M_C03"], [])], "thorough": [("rollout_t", ["M_C03"], []), ("rollout_mu2_t", ["M_C03"], [])]},
+    "C04": {"quick": [("canary_q", ["M_C04"], [])], "thorough": [("canary_t", ["M_C04"], [])]},
+    "C05": {"quick": [("canary_q", ["M_C05"], [])], "thorough": [("canary_t", ["M_C05"], []), ("canary_manual_q", ["M_C05"], [])]},
+    "C07": {"quick": [("canary_q", ["M_C07"], [])], "thorough": [("canary_t", ["M_C07"], [])]},
+    "C08": {"quick": [("rollout_q", ["M_C08"], [])], "thorough": [("rollout_t", ["M_C08"], []), ("canary_t", ["M_C08"], [])]},
+    "C09": {"quick": [("rollout_q", ["M_C09"], [])], "thorough": [("rollout_t", ["M_C09"], [])]},
+    "C13": {"quick": [("rollout_q", ["M_C13"], ["I_C13m"])], "thorough": [("rollout_t", ["M_C13"], ["I_C13m"]), ("canary_t", ["M_C13"], ["I_C13m"])]},
+    "C14": {"quick": [("rollout_q", ["M_C14"], [])], "thorough": [("rollout_t", ["M_C14"], []), ("canary_t", ["M_C14"], [])]},
+    "C15": {"quick": [("canary_q", ["M_C15"], [])], "thorough": [("canary_t", ["M_C15"], [])]},
+    "C02": {"quick": [("rollout_q", [], ["TypeOK"])], "thorough": [("rollout_t", [], ["TypeOK"])]},
+    "C10": {"quick": [("rollout_q", ["M_C10"], [])], "thorough": [("rollout_t", ["M_C10"], [])]},
+    "C12": {"quick": [("rollout_q", ["M_C12"], [])], "thorough": [("rollout_t", ["M_C12"], [])]},
+}
+
+# ---- B3: vector generators (module, constants of the cfg per tier, formulas that judge the recorded steps) ----
+B3 = {
+    "C03": [dict(gen="Gen_Limits",
+                 quick='MaxN = 4\n  Reps = 2\n  MaxUs = {"0", "1", "2", "50%"}\n  MaxSFs = {"0", "1"}\n  Variants <- VariantsQuick',
+                 thorough='MaxN = 5\n  Reps = 3\n  MaxUs = {"0", "1", "2", "3", "25%", "50%", "100%"}\n  MaxSFs = {"0", "1", "50%"}\n  Variants <- VariantsThorough',
+                 props=["P_C03", "P_C09", "P_C08", "P_C01"])],
+}
+
 RULES = {
-    "default": "cases = recorded steps of the real reconcilers (scenario corpus + seeded random walks over the action vocabulary, each followed by a convergence tail); a case is non-trivial when the antecedent of one of the property's step formulas held on it; distinct = distinct NT tuples printed by TLC (formula clause + the abstract quantities it decided on)",
+    "default": "cases = recorded steps of the real reconcilers (scenario corpus + seeded random walks over the action vocabulary, each followed by a convergence tail; state vectors enumerated by TLC and materialised as real objects, one real reconcile each); a case is non-trivial when the antecedent of one of the property's step formulas held on it; distinct = distinct NT tuples printed by TLC (formula clause + the abstract quantities it decided on)",
 }
